@@ -37,7 +37,7 @@ ASSUMPTIONS = [
 MIN_MONITOR = {"mon.mutant_key_differs": 300, "mon.crossprocess_keys": 40,
                "mon.data_variants": 20}
 SHARD_TIMEOUT = {"quick": 900, "thorough": 7200}
-N_GRAPHS = {"quick": 130, "thorough": 2400}
+N_GRAPHS = {"quick": 260, "thorough": 2400}
 NODES_PER_GRAPH = {"quick": 10, "thorough": 24}
 N_PROCS = {"quick": 3, "thorough": 8}
 
